@@ -6,7 +6,7 @@
 //!
 //! Families (each enumerated completely):
 //! * **raw**   every response of length 0..=2 over all 256 byte values, every response of length
-//!             3 over a 12-value byte alphabet;
+//!             3 over a 12-value byte alphabet (quick) / over all byte values (thorough);
 //! * **sign**  `[type] string{ string algo, string sig }` with every combination of declared
 //!             lengths {actual,0,1,63,64,65,2^31} and actual signature lengths {0,1,63,64,65},
 //!             × type ∈ {IDENTITIES_ANSWER, SIGN_RESPONSE, FAILURE, SUCCESS, 0} × every truncation point;
@@ -146,8 +146,11 @@ fn eval_resp(family: &str, resp: &[u8], idx: u64) -> ItemOut {
 
 const B3: [u8; 12] = [0, 1, 5, 6, 12, 14, 63, 64, 65, 0x7f, 0x80, 0xff];
 
+/// Thorough tier: every 3-byte response as well.
+static FULL3: std::sync::atomic::AtomicBool = std::sync::atomic::AtomicBool::new(false);
+
 fn raw_size() -> u64 {
-    1 + 256 + 65536 + (B3.len() as u64).pow(3)
+    1 + 256 + 65536 + if FULL3.load(std::sync::atomic::Ordering::Relaxed) { 1 << 24 } else { (B3.len() as u64).pow(3) }
 }
 fn raw_at(mut i: u64) -> Vec<u8> {
     if i == 0 {
@@ -162,6 +165,9 @@ fn raw_at(mut i: u64) -> Vec<u8> {
         return vec![(i >> 8) as u8, i as u8];
     }
     i -= 65536;
+    if FULL3.load(std::sync::atomic::Ordering::Relaxed) {
+        return vec![(i >> 16) as u8, (i >> 8) as u8, i as u8];
+    }
     let n = B3.len() as u64;
     vec![B3[(i / (n * n)) as usize], B3[((i / n) % n) as usize], B3[(i % n) as usize]]
 }
@@ -239,7 +245,7 @@ fn key_blobs() -> Vec<Vec<u8>> {
     v
 }
 
-fn ids_bodies() -> Vec<Vec<u8>> {
+fn ids_bodies(thorough: bool) -> Vec<Vec<u8>> {
     let blobs = key_blobs();
     let mut comments: Vec<Vec<u8>> = vec![];
     for (d, c) in [(Decl::Actual, &b""[..]), (Decl::Actual, &b"c"[..]), (Decl::Val(1 << 31), &b"c"[..])] {
@@ -254,7 +260,13 @@ fn ids_bodies() -> Vec<Vec<u8>> {
         }
     }
     // second entries: a valid one and one whose blob length field points far out
-    let second: Vec<Vec<u8>> = vec![entries[0].clone(), [blobs[6].as_slice(), comments[0].as_slice()].concat()];
+    let mut second: Vec<Vec<u8>> = vec![entries[0].clone(), [blobs[6].as_slice(), comments[0].as_slice()].concat()];
+    if thorough {
+        // every inner malformation (with a consistent outer length) as the second entry too
+        for k in 1..blobs.len() / LENS.len() {
+            second.push([blobs[k * LENS.len()].as_slice(), comments[1].as_slice()].concat());
+        }
+    }
     let mut seqs: Vec<Vec<u8>> = vec![vec![]];
     for e in &entries {
         seqs.push(e.clone());
@@ -405,6 +417,8 @@ fn rt_size() -> u64 {
 }
 
 fn rt_violation(ty: &str, route: &str, what: String, bytes: &[u8], pat: &str, idx: u64) -> Violation {
+    // error texts quote raw key bytes: keep the line printable
+    let what: String = what.chars().map(|c| if c.is_control() { '.' } else { c }).collect();
     Violation::new(format!("C27/roundtrip/{ty}/{route}"), format!("{ty} ({pat}): {what}"), json!({"family": "rt", "type": ty, "bytes_hex": hex(bytes), "pattern": pat, "route": route})).cost(idx)
 }
 
@@ -528,7 +542,7 @@ fn crash_violation(wit: Value, what: String, crash: Crash, tail: &str, cost: u64
 }
 
 fn opts() -> ProcOpts {
-    ProcOpts { chunk_timeout: Duration::from_secs(120), item_timeout: Duration::from_secs(20), chunk: None }
+    ProcOpts { chunk_timeout: Duration::from_secs(600), item_timeout: Duration::from_secs(180), chunk: None }
 }
 
 fn outer_panic(family: &'static str) -> impl Fn(u64, &mcx::panics::Caught) -> Violation + Sync {
@@ -557,7 +571,7 @@ fn replay(w: &Value) -> Vec<Violation> {
     let st = sweep::procs(
         "replay",
         1,
-        ProcOpts { chunk_timeout: Duration::from_secs(60), item_timeout: Duration::from_secs(60), chunk: Some(1) },
+        ProcOpts { chunk_timeout: Duration::from_secs(600), item_timeout: Duration::from_secs(600), chunk: Some(1) },
         |_| match fam.as_str() {
             "resp" => eval_resp(w["from"].as_str().unwrap_or("replay"), &unhex(w["response_hex"].as_str().unwrap_or("")), 0),
             "unix" => eval_unix(&unhex(w["wire_hex"].as_str().unwrap_or("")), w["desc"].as_str().unwrap_or(""), 0),
@@ -583,8 +597,10 @@ fn main() {
     if let Some(w) = ctx.replay_witness() {
         ctx.finish_replay(replay(&w));
     }
+    let thorough = ctx.tier == mcx::Tier::Thorough;
+    FULL3.store(thorough, std::sync::atomic::Ordering::Relaxed);
     let sign = Cuts::new(sign_bodies());
-    let ids = Cuts::new(ids_bodies());
+    let ids = Cuts::new(ids_bodies(thorough));
     let unix = unix_items();
 
     let mut st = Stats::default();
@@ -634,7 +650,7 @@ fn main() {
         json!({"family": "rt", "type": rt_at(rt_size() - 1).0, "pattern": rt_at(rt_size() - 1).2}),
     ];
     let mut cov = st.coverage(
-        "response item = bytes returned by the stub ClientStream (raw: every string of <=2 bytes + 12^3 three-byte strings; sign/ids: structured bodies x 5 type bytes x every truncation point), \
+        "response item = bytes returned by the stub ClientStream (raw: every string of <=2 bytes + 12^3 (quick) / 256^3 (thorough) three-byte strings; sign/ids: structured bodies x 5 type bytes x every truncation point), \
          each parsed by request_identities::<PublicKey>, sign and query_extension; unix item = bytes written to a socket pair read by the real UnixStream transport; rt item = one key/signature byte pattern. \
          Non-trivial = response with a type byte a parser acts upon and at least one body byte / socket payload beyond the prefix / every rt item; distinct = distinct byte strings",
         samples,
